@@ -790,7 +790,10 @@ class _ActionSubCommands(_SubParsersAction):
             # Merge environment variable values and default values
             subnamespace = None
             key = prefix + subcommand
-            with parent_parsers_context(key, parser):
+            from ._link_arguments import skip_apply_links
+
+            # links are applied once the subcommand's values are complete, not on its defaults and environment alone
+            with parent_parsers_context(key, parser), skip_apply_links():
                 if env:
                     subnamespace = subparser.parse_env(env=environ, defaults=defaults, _skip_validation=True)
                 elif defaults:
